@@ -80,13 +80,25 @@ class _Space:
                 self.bools.add(key)
         self.forms_l = sorted(self.forms)
         self.bools_l = sorted(self.bools)
+        # `x is None` and comparisons of x with numbers are not independent: x is None or a number.  A linear
+        # form that is just the quantity x gets None as a further value, taken exactly in the cells where the
+        # boolean `x is None` is true (there `x == c` is false and `x != c` true, as in Python; an ordering
+        # comparison would raise and is left undecided).  Without this `x is not None and x == 0` and `x == 0`
+        # would be different conditions.
+        self.none_link = {}
+        for key in self.bools_l:
+            if key[0] == "is" and len(key) == 3 and "None" in key[1:]:
+                other = [x for x in key[1:] if x != "None"]
+                form = ((((other[0], 1),), 1),) if len(other) == 1 else None
+                if form in self.forms:
+                    self.none_link[form] = key
 
     def samples(self, form):
         out = set()
         for th in self.forms[form]:
             f = math.floor(th)
             out.update((f - 1, f, f + 1, f + 2))
-        return sorted(out)
+        return sorted(out) + ([None] if form in self.none_link else [])
 
     def size(self):
         n = 2 ** len(self.bools_l)
@@ -98,15 +110,22 @@ class _Space:
         doms = [self.samples(f) for f in self.forms_l] + [(False, True)] * len(self.bools_l)
         nf = len(self.forms_l)
         for combo in itertools.product(*doms):
-            yield dict(zip(self.forms_l, combo[:nf])), dict(zip(self.bools_l, combo[nf:]))
+            fv, bv = dict(zip(self.forms_l, combo[:nf])), dict(zip(self.bools_l, combo[nf:]))
+            if any((fv[f] is None) != bv[k] for f, k in self.none_link.items()):
+                continue
+            yield fv, bv
 
     def lit(self, l, fv, bv):
         inf = self.info[l]
         if inf[0] == "b":
             return bv[inf[1]] == inf[2]
         _, form, a, c = inf
-        val = c if form is None else a * fv[form] + c
         k = l[0]
+        if form is not None and fv[form] is None:
+            if k in ("eq", "ne"):
+                return k == "ne"
+            raise Undecided("C07: a condition orders %s although it may be None" % form[0][0][0][0])
+        val = c if form is None else a * fv[form] + c
         if k == "lt":
             return val < 0
         if k == "le":
@@ -152,15 +171,21 @@ class Undecided(AnalysisError):
     pass
 
 
-def _compare(D1, D2, assume, mode, limit=400000):
+def _compare(D1, D2, assume, mode, limit=400000, under=None):
+    """`assume`: a conjunction of literals, `under`: a DNF -- only the cells in which both hold are compared
+    (a premise that is itself a disjunction, e.g. 'the entry was found under the first key or else under the
+    second', cannot be written as a set of literals)."""
     D1 = [frozenset(c) for c in D1]
     D2 = [frozenset(c) for c in D2]
     assume = frozenset(assume)
-    sp = _Space([l for c in D1 for l in c] + [l for c in D2 for l in c] + list(assume))
+    under = None if under is None else [frozenset(c) for c in under]
+    sp = _Space([l for c in D1 for l in c] + [l for c in D2 for l in c] + list(assume) + [l for c in (under or ()) for l in c])
     if sp.size() > limit:
         raise Undecided("C07: the condition has too many cells to compare (%d)" % sp.size())
     for fv, bv in sp.assignments():
         if not all(sp.lit(l, fv, bv) for l in assume):
+            continue
+        if under is not None and not sp.dnf(under, fv, bv):
             continue
         v1, v2 = sp.dnf(D1, fv, bv), sp.dnf(D2, fv, bv)
         if (mode == "eq" and v1 != v2) or (mode == "imp" and v1 and not v2):
@@ -170,14 +195,46 @@ def _compare(D1, D2, assume, mode, limit=400000):
     return True, None
 
 
-def sem_equiv(D1, D2, assume=()):
+def sem_equiv(D1, D2, assume=(), under=None):
     """(equivalent?, counterexample text).  Sound for 'equivalent' in general; a counterexample is genuine
     when the linear forms are independent (otherwise Undecided is raised)."""
-    return _compare(D1, D2, assume, "eq")
+    return _compare(D1, D2, assume, "eq", under=under)
 
 
-def sem_implies(D1, D2, assume=()):
-    return _compare(D1, D2, assume, "imp")
+def sem_implies(D1, D2, assume=(), under=None):
+    return _compare(D1, D2, assume, "imp", under=under)
+
+
+def sem_satisfiable(conj):
+    """is the conjunction of literals true in some cell?"""
+    conj = frozenset(conj)
+    sp = _Space(list(conj))
+    return any(all(sp.lit(l, fv, bv) for l in conj) for fv, bv in sp.assignments())
+
+
+def atoms_of(l):
+    """names of the quantities a literal talks about"""
+    out = set()
+    for x in l[1:]:
+        if isinstance(x, Poly):
+            out |= set(x.atoms())
+        elif isinstance(x, str):
+            out.add(x)
+    return out
+
+
+def project_away(D, decisive):
+    """Existential projection of a DNF: the condition `exists <values of the quantities in decisive>. D` over the
+    remaining quantities.  For a DNF that is: every satisfiable conjunction without its literals that mention a
+    projected quantity (a literal mentioning both kinds of quantity would make this an over-approximation; the
+    callers refuse that)."""
+    out = set()
+    for c in D:
+        c = frozenset(c)
+        if not sem_satisfiable(c):
+            continue
+        out.add(frozenset(l for l in c if not (atoms_of(l) & decisive)))
+    return out
 
 
 def forms_of(D):
@@ -236,8 +293,8 @@ def write_values(fnode, name):
         if isinstance(st, ast.Assign):
             for t in st.targets:
                 _destructure(t, st.value, name, out, st)
-        elif isinstance(st, ast.AnnAssign):
-            out.append((st, st.value))
+        elif isinstance(st, (ast.AnnAssign, ast.NamedExpr)):
+            out.append((st, st.value))  # `name: T = v`, `(name := v)`
         else:
             out.append((st, None))
     return out
@@ -301,15 +358,17 @@ def _simplify_dnf(D, limit=4000):
     return D
 
 
-def path_conditions(fi, node_id, start=None):
+def path_conditions(fi, node_id, start=None, avoid=()):
     """Alternatives [(test expr, polarity), ...] such that CFG node `node_id` is reached from `start` (default:
     function entry) within one pass (no back edge) exactly when one alternative holds at its tests.  Computed by
     propagating conditions along all paths and merging at joins, so early returns / continue / nested or
     sequential ifs / guard order give the same result as the equivalent if-else nest.  A decision that does not
-    influence whether the node is reached disappears at the join of its two arms."""
+    influence whether the node is reached disappears at the join of its two arms.  Ways through a node of
+    `avoid` do not count."""
     cfg = cfg_of(fi)
     start = cfg.entry if start is None else start
-    fwd = cfg.reach({start}, skip_labels=("back",)) | {start}
+    avoid = set(avoid) - {start, node_id}
+    fwd = cfg.reach({start}, avoid=avoid, skip_labels=("back",)) | {start}
     if node_id not in fwd:
         return []
     # nodes from which node_id is reachable without a back edge
@@ -318,7 +377,7 @@ def path_conditions(fi, node_id, start=None):
     while todo:
         n = todo.pop()
         for p, lab in cfg.pred[n]:
-            if lab == "back" or p in back:
+            if lab == "back" or p in back or p in avoid:
                 continue
             back.add(p)
             todo.append(p)
@@ -390,14 +449,23 @@ def _make_expander():
     from .c05 import Expander as _E, node_conditions
 
     class PathExpander(_E):
-        """c05.Expander attaches to every reaching definition the branch outcomes that dominate it.  A definition
-        in the body of `if a or b:` (or in the else-arm of `if a and b:`) is dominated by no single outcome, so
-        the test of every enclosing if/while is added as a whole (it is split into alternatives by the normal
-        form later)."""
+        """c05.Expander replaces a local by its reaching definitions, each with the condition under which it is the
+        one that reaches the use.  c05 takes for that condition the branch outcomes that dominate the definition
+        plus the outcomes that every way from the definition to the use passes -- a conjunction.  That loses the
+        condition whenever it is a disjunction: a definition in the body of `if a or b:`, and -- more commonly --
+        a default that survives unless `if a and b:` overwrites it (`flag = True` / `if a and b: flag = False`:
+        the default reaches the use when `not a or not b`, and no single outcome lies on every way).  Here the
+        condition is computed over paths: (the enclosing tests of the definition, as whole expressions) and
+        (the DNF, merged at joins, of the ways from the definition to the use that pass no other definition of the
+        same local)."""
 
-        def _path_conditions(self, name, wn, between, nid):
-            out = list(super()._path_conditions(name, wn, between, nid))
-            seen = {(id(t), pol) for t, pol in out}
+        def _def_conditions(self, wn):
+            out = []
+            seen = set()
+            for t, pol, _p in self.cfg.guards(wn):
+                if (id(t), pol) not in seen:
+                    seen.add((id(t), pol))
+                    out.append((t, pol))
             st = self.cfg.nodes[wn].ast
             if st is not None:
                 for t, pol in node_conditions(self.fi, st):
@@ -406,7 +474,284 @@ def _make_expander():
                         out.append((t, pol))
             return out
 
+        def _path_conditions(self, name, wn, between, nid):  # kept for callers that want one conjunction
+            out = list(super()._path_conditions(name, wn, between, nid))
+            seen = {(id(t), pol) for t, pol in out}
+            for t, pol in self._def_conditions(wn):
+                if (id(t), pol) not in seen:
+                    seen.add((id(t), pol))
+                    out.append((t, pol))
+            return out
+
+        def _reach_alternatives(self, name, wn, between, nid):
+            """[[(test, polarity), ...], ...]: the definition at wn is the one that reaches nid"""
+            others = {n for n, _ in self.writes(name)} - {wn, nid}
+            try:
+                alts = path_conditions(self.fi, nid, wn, avoid=others)
+            except AnalysisError:
+                alts = None
+            if not alts:  # only reachable round a loop, or not computable: fall back on the conjunction
+                return [self._path_conditions(name, wn, between, nid)]
+            base = self._def_conditions(wn)
+            seen = {(id(t), pol) for t, pol in base}
+            return [base + [(t, pol) for t, pol in a if (id(t), pol) not in seen] for a in alts]
+
+        def _name(self, e, nid, depth):
+            from .c05 import _retag
+            if e.id in self.subst:
+                return [(self.subst[e.id], ())]
+            ws = self.writes(e.id)
+            if not ws or e.id in self.opaque:
+                return [(e, ())]
+            defs, entry = self.reaching(e.id, nid)
+            if entry or not defs:
+                return [(e, ())]
+            if not all(self._substitutable(e.id, wn, st, v, btw, nid) for wn, st, v, btw in defs):
+                return [(e, ())]
+            out = []
+            for wn, st, v, btw in defs:
+                key = (e.id, wn, nid)
+                if key in self._active:
+                    raise AnalysisError("loop-carried definition of %s in %s" % (e.id, self.fi.short))
+                self._active.add(key)
+                try:
+                    if self.path_conds:
+                        calts = []
+                        for conds in (self._reach_alternatives(e.id, wn, btw, nid) if len(defs) > 1 else [self._def_conditions(wn)]):
+                            calts.extend(self.expand_conds(conds, depth + 1))
+                    else:
+                        calts = [()]
+                    vals = self.expand(v, wn, depth + 1)
+                    stale = self._stale(e.id, st, v, btw, nid)
+                    if stale:
+                        vals = [(_retag(v2, stale, e.id), tuple((_retag(t, stale, e.id), pol) for t, pol in c2)) for v2, c2 in vals]
+                finally:
+                    self._active.discard(key)
+                for c_ in calts:
+                    for v2, c2 in vals:
+                        out.append((v2, c_ + c2))
+                self._tick(len(out))
+            return out
+
     return PathExpander
 
 
 PathExpander = _make_expander()
+
+
+def constant_env(prog, fi, fnode=None):
+    """(env, chain_env) for norm.Normalizer: named numeric constants a function reads -- module-level names
+    (of its own module, or imported from another module of the package) bound exactly once at top level, and
+    class attributes read as `self.X` / `cls.X` / `<Class>.X` that no subclass redefines and nothing assigns
+    through an instance -- with a value the checker's own constant evaluator reduces to a number.  `2**23` and
+    `_HALF_RANGE` (= `1 << 23`) are then the same polynomial constant."""
+    fnode = fnode if fnode is not None else fi.node
+    env, chain_env = {}, {}
+    bound = {n.id for n in ast.walk(fnode) if isinstance(n, ast.Name) and isinstance(n.ctx, (ast.Store, ast.Del))}
+    a = fnode.args
+    bound |= {x.arg for x in a.posonlyargs + a.args + a.kwonlyargs}
+
+    def numeric(e):
+        try:
+            v = norm.consteval(e)
+        except (norm.NormError, TypeError, ValueError, ZeroDivisionError, OverflowError):
+            return False
+        return isinstance(v, (int, float)) and not isinstance(v, bool)
+
+    def top_level(m, name):
+        vals = []
+        for st in m.tree.body:
+            if isinstance(st, ast.Assign) and any(isinstance(t, ast.Name) and t.id == name for t in st.targets):
+                vals.append(st.value)
+            elif isinstance(st, (ast.AnnAssign, ast.AugAssign)) and isinstance(st.target, ast.Name) and st.target.id == name:
+                vals.append(getattr(st, "value", None) if isinstance(st, ast.AnnAssign) else None)
+        rebinds = any(isinstance(n, ast.Global) and name in n.names for n in ast.walk(m.tree))
+        return vals[0] if len(vals) == 1 and vals[0] is not None and not rebinds else None
+
+    owner = fi
+    while owner is not None and owner.cls is None:
+        owner = owner.parent
+    for n in ast.walk(fnode):
+        if isinstance(n, ast.Name) and isinstance(n.ctx, ast.Load) and n.id not in bound and n.id not in env:
+            q = prog.resolve_in_module(fi.module, n.id)
+            modname, _, cname = q.rpartition(".")
+            m = prog.modules.get(modname)
+            v = top_level(m, cname) if m is not None else None
+            if v is not None and numeric(v):
+                env[n.id] = v
+        elif isinstance(n, ast.Attribute) and isinstance(n.ctx, ast.Load):
+            c = chain(n)
+            if c is None or c in chain_env or c.count(".") != 1:
+                continue
+            head, attr = c.split(".")
+            clsqn = None
+            if head in ("self", "cls") and owner is not None and head not in bound - {"self", "cls"}:
+                clsqn = owner.cls.qn
+            elif head not in bound:
+                q = prog.resolve_in_module(fi.module, head)
+                clsqn = q if q in prog.classes else None
+            if clsqn is None:
+                continue
+            v, ci = prog.class_attr(clsqn, attr)
+            if v is None or not numeric(v):
+                continue
+            if any(attr in prog.classes[q].attrs for q in prog.subclasses(ci.qn) if q != ci.qn and q in prog.classes):
+                continue
+            if field_writers(prog, attr):
+                continue
+            chain_env[c] = v
+    return env, chain_env
+
+
+def flag_locals(fi):
+    """{name: [(statement, literal)]} for the locals all of whose bindings are `name = True | False | None`"""
+    cand = {}
+    for n in walk_no_nested(fi.node):
+        if isinstance(n, ast.Assign) and len(n.targets) == 1 and isinstance(n.targets[0], ast.Name) and isinstance(n.value, ast.Constant) \
+                and (n.value.value is None or isinstance(n.value.value, bool)):
+            v = n.value.value
+            lit = ("is", n.targets[0].id, "None") if v is None else (("truth" if v else "nottruth"), n.targets[0].id)
+            cand.setdefault(n.targets[0].id, []).append((n, lit))
+    a = fi.node.args
+    params_ = {x.arg for x in a.posonlyargs + a.args + a.kwonlyargs} | ({a.vararg.arg} if a.vararg else set()) | ({a.kwarg.arg} if a.kwarg else set())
+    return {k: v for k, v in cand.items() if k not in params_ and len(writes_to_name(fi.node, k)) == len(v)}
+
+
+# ---------------------------------------------------------------------------
+# 6. literal-consistent walks: "on every way the program can take while L holds, X happens before Y"
+
+
+class ConsistentWalk:
+    """Walks of the CFG on which the branch outcomes taken do not contradict each other or an initial set of
+    literals.  Every branch pseudo node asserts the normal-form literals of its test (locals replaced by their
+    reaching definitions *with* the conditions under which each definition is the reaching one, so a flag
+    computed earlier and the tests it was computed from are the same facts); an outcome whose every alternative
+    contradicts what the walk already knows is not taken.  Hence the verdict does not depend on how the tests
+    are grouped: `if a: if b: X` / `if a and b: X` / `if not a: return ... if b: X` / `f = a and b; if f: X` /
+    one merged `if a or c:` with an inner `if a:` all produce the same consistent walks.
+
+    `keep(literal) -> literal | None` selects (and may rename) the literals that are facts for the whole walk
+    (about immutable or walk-invariant quantities); every other test is a free choice (both outcomes taken).
+    Pruning is only ever done on kept literals, so a walk that exists in some execution is never dropped."""
+
+    LIMIT = 200000
+
+    def __init__(self, X, N, fi, keep, decide=None):
+        """decide(test expression) -> True / False / None: tests the rule can decide outright (e.g. `<a freshly
+        constructed object> is None`), which the normal forms would otherwise keep as an opaque free choice"""
+        self.X, self.N, self.fi, self.keep, self.decide = X, N, fi, keep, decide
+        self.cfg = cfg_of(fi)
+        self._asserted = {}
+        # flag locals: every binding is `name = True / False / None`.  Where the expander cannot replace such a
+        # local by its definitions (the definition reaches the test round a loop: `done = False` /
+        # `while not done: ... done = True`), the walk itself carries the value: passing a binding forgets what
+        # was known about the name and records the constant.
+        self.flags = flag_locals(fi)
+        self._writes = {}
+        for name, binds in self.flags.items():
+            for st, lit in binds:
+                for nid in self.cfg.locate(st):
+                    if self.cfg.nodes[nid].kind not in ("T", "F"):
+                        self._writes.setdefault(nid, []).append((name, lit))
+
+    def alternatives(self, conds_alts):
+        """expanded conditions [((test, polarity), ...), ...] -> kept literal sets; an alternative with a test
+        decided the other way is dropped"""
+        from .c05 import nf_conds
+        out = []
+        for c in conds_alts:
+            live = []
+            for t, pol in c:
+                k = self.decide(t) if self.decide is not None else None
+                if k is None:
+                    live.append((t, pol))
+                elif k != pol:
+                    live = None
+                    break
+            if live is None:
+                continue
+            for a in nf_conds(self.N, live):
+                k = self.filter(a)
+                if k not in out:
+                    out.append(k)
+        return out
+
+    def filter(self, lits):
+        out = set()
+        for l in lits:
+            k = self.keep(l)
+            if k is not None:
+                out.add(k)
+        return frozenset(out)
+
+    def asserted(self, pid):
+        """alternatives (kept literals) of the outcome a T/F pseudo node stands for; [frozenset()] = no information"""
+        if pid not in self._asserted:
+            nd = self.cfg.nodes[pid]
+            res = None
+            if isinstance(nd.ast, ast.expr):
+                try:
+                    res = self.alternatives(self.X.expand_conds([(nd.ast, nd.kind == "T")]))
+                except AnalysisError:
+                    res = None
+            if res is None or frozenset() in res:
+                res = [frozenset()]
+            self._asserted[pid] = res
+        return self._asserted[pid]
+
+    def add(self, lits, more):
+        """lits & more, or None when contradictory"""
+        from .c05 import simplify
+        return simplify(set(lits) | set(more))
+
+    def run(self, start, init, stop, watch=()):
+        """All consistent walks that leave CFG node `start` knowing `init`, each followed until it enters a node of
+        `stop`, the normal exit, the exception exit or a dead end.  Returns a set of
+        (end node id | 'exit' | 'raise', literals known at the end, trail) where trail is the tuple of `watch`
+        nodes passed on the way (the end node excluded)."""
+        cfg = self.cfg
+        stop, watch = set(stop), set(watch)
+        init = self.add(frozenset(init), ())
+        if init is None:
+            return set()
+        out = set()
+        seen = set()
+        todo = [(d, init, ()) for d, lab in cfg.succ[start] if lab != "exc"]
+        steps = 0
+        while todo:
+            nid, lits, trail = todo.pop()
+            key = (nid, lits, trail)
+            if key in seen:
+                continue
+            seen.add(key)
+            steps += 1
+            if steps > self.LIMIT:
+                raise AnalysisError("C07: consistent walk of %s exceeds its bound" % self.fi.short)
+            if nid == cfg.exit:
+                out.add(("exit", lits, trail))
+                continue
+            if nid == cfg.rexit:
+                out.add(("raise", lits, trail))
+                continue
+            if nid in stop:
+                out.add((nid, lits, trail))
+                continue
+            nd = cfg.nodes[nid]
+            states = [lits]
+            if nd.kind in ("T", "F"):
+                states = []
+                for a in self.asserted(nid):
+                    s = self.add(lits, a)
+                    if s is not None and s not in states:
+                        states.append(s)
+            if nid in self._writes:
+                for name, lit in self._writes[nid]:
+                    states = [frozenset(l for l in st_ if name not in atoms_of(l)) | {lit} for st_ in states]
+            t2 = trail + (nid,) if nid in watch else trail
+            succ = [(d, lab) for d, lab in cfg.succ[nid] if lab != "exc" or nd.kind == "raise"]
+            if not succ and states:
+                out.add(("raise" if nd.kind == "raise" else "exit", states[0], t2))
+            for s in states:
+                for d, _lab in succ:
+                    todo.append((d, s, t2))
+        return out
